@@ -986,8 +986,42 @@ def rand_records_module(ctx, section, nrecs, salt=0):
             fh.write(text)
 
 
+def rand_events_colours_module(ctx, section, nrecs, salt=0):
+    """Randomised alphabets for the [Events] / [Colours] records of Records.tla: break times of every sign and order, every
+    event kind x file x field count; colour components 0..255, 2..5 components, combo and named keys."""
+    import random
+    rnd = random.Random(ctx.seed * 5323 + 7 + salt * 73939133 + len(section))
+    recs = set()
+    while len(recs) < nrecs:
+        if section == "Events":
+            if rnd.random() < 0.5:
+                a = rnd.choice([0, 100, rnd.randint(-5000, 100000)])
+                b = rnd.choice([a, a + rnd.randint(-300, 5000), rnd.randint(-5000, 100000)])
+                recs.add('E("break", "", %d, "%s", %d, "%s", %d)' % (rnd.choice([2, 3, 3, 3, 4]), rnd.choice(["num", "num", "num", "bad"]), a,
+                                                                    rnd.choice(["num", "num", "num", "bad"]), b))
+            else:
+                recs.add('E("%s", "%s", %d, "num", 0, "num", 0)' % (rnd.choice(["bg", "video", "sprite", "other", "bad"]),
+                                                                  rnd.choice(["a.jpg", "b.png", "v.mp4", "V.AVI", "ab", "p\\\\q.jpg", ""]), rnd.choice([1, 2, 3, 4, 5, 6])))
+        else:
+            k = rnd.choice(["Combo1", "Combo2", "Combo", "Combo%d" % rnd.randint(0, 99), "SliderBorder", "SliderTrackOverride", "X", "Y"])
+            recs.add('C("%s", %s, %d, %d, %d, %d, "%s")' % (k, "TRUE" if k.startswith("Combo") else "FALSE", rnd.randint(0, 255), rnd.randint(0, 255),
+                                                          rnd.randint(0, 255), rnd.choice([2, 3, 3, 3, 4, 4, 5]), rnd.choice(["ok", "ok", "ok", "ok", "bad"])))
+    text = ("----------------------------- MODULE RandRecords -----------------------------\n"
+            "(* generated by bin/plans.py (rand_events_colours_module) from VERIF_SEED = %d for section %s - do not edit. *)\n"
+            "EXTENDS Records\n\nRandRAlpha == <<\n    %s >>\n"
+            "=============================================================================\n") % (ctx.seed, section, ",\n    ".join(sorted(recs)))
+    path = os.path.join(SPEC, "RandRecords.tla")
+    old = open(path).read() if os.path.exists(path) else None
+    if old != text:
+        with open(path, "w") as fh:
+            fh.write(text)
+
+
 def records_rand_cases(ctx, section, nrecs, maxrecs, salt=0):
-    rand_records_module(ctx, section, nrecs, salt)
+    if section in ("Events", "Colours"):
+        rand_events_colours_module(ctx, section, nrecs, salt)
+    else:
+        rand_records_module(ctx, section, nrecs, salt)
     sany(ctx, "RandRecords")
     name = "MC_RandRecords_%s_%d_%d" % (section, nrecs, maxrecs)
     cases = os.path.join(ctx.work, name + ".ndjson")
@@ -1014,10 +1048,10 @@ def check_C11(ctx):
         f = records_cases(ctx, sec, n)
         summ = harness(ctx, ["records", "replay", "--spellings", "2"], cases_file=f, name="records-" + sec, timeout=3600)
         report_mismatches(ctx, summ, "[%s] records decode differently from the format rules of Records.tla" % sec)
-    # randomised alphabets for the key/value sections (values drawn with the seed; the model is the oracle)
-    for sec in ("General", "Editor", "Metadata", "Difficulty"):
+    # randomised alphabets for all six sections (values drawn with the seed; the model is the oracle)
+    for sec in ("General", "Editor", "Metadata", "Difficulty", "Events", "Colours"):
         for salt in ([2, 1, 0] if thorough else [0]):
-            f = records_rand_cases(ctx, sec, 70, 2, salt=salt)
+            f = records_rand_cases(ctx, sec, 50 if sec in ("Events", "Colours") else 70, 2, salt=salt)
             summ = harness(ctx, ["records", "replay", "--spellings", "1"], cases_file=f, name="records-rand-" + sec, timeout=3600)
             report_mismatches(ctx, summ, "[%s] records decode differently from the format rules of Records.tla (randomised alphabet %d)" % (sec, salt))
             os.remove(f)
